@@ -11,6 +11,8 @@ c = sqlite3.connect(spec["path"], isolation_level=None, timeout=0, uri=spec["pat
 c.execute("PRAGMA journal_mode=%s" % spec["journal_mode"]).fetchall()
 c.execute("PRAGMA cache_size=%d" % spec.get("cache_size", 3))
 c.execute("PRAGMA synchronous=%s" % (spec.get("synchronous") or "FULL"))
+if spec.get("journal_size_limit"):
+    c.execute("PRAGMA journal_size_limit=%d" % int(spec["journal_size_limit"])).fetchall()
 c.execute("BEGIN")
 for s in spec["stmts"]:
     try:
